@@ -327,6 +327,21 @@ func c07(r *Run) {
 		}
 	}
 
+	// the closed answers too are given only when the wanted bytes are NOT there (bytes that arrived before the close stay readable)
+	for _, fn := range []*ssa.Function{waitRead, waitReadT} {
+		for _, en := range []string{"ErrEOF", "ErrConnClosed"} {
+			for i, site := range findIns(fn, w.isException(en)) {
+				starts := []Start{Entry(fn)}
+				for _, b := range findIns(fn, isBlockingOp) {
+					starts = append(starts, After(b))
+				}
+				ss := &Search{Fn: fn, CutEdge: cutOn(lenLessFact())}
+				wit := ss.Find(starts, isIns(site), false)
+				r.Visited += ss.Visited
+				r.obW(fmt.Sprintf("C07.R5:closed-only-when-short:%s:%s#%d", fn.Name(), en, i+1), en+" is returned by the wait loop only right after observing Len() < n (never when the n bytes are already buffered: data sent before the close is delivered first)", fn, site, wit, "guarded by Len()<n since the last blocking op")
+			}
+		}
+	}
 	// an already expired deadline answers with the timeout error
 	expiredRule(r, waitRead, "ErrReadTimeout", "C07.R5")
 
